@@ -1152,7 +1152,12 @@ def _arith(name, nodef, nargs=2):
         if extra or any(k not in ('out',) for k in kwargs):
             if name in ('add', 'sub') and ('alpha' in kwargs or extra):
                 alpha = kwargs.get('alpha', extra[0] if extra else 1)
-                ops = (ops[0], ops[1] * alpha)
+                # through the engine's own mul: a plain `ops[1] * alpha` here runs with torch-function dispatch
+                # disabled and would turn a symbolic operand into the constant of its witness value
+                if isinstance(ops[1], SymTensor) or isinstance(alpha, (SymTensor, SymFloat)):
+                    ops = (ops[0], HANDLERS['mul'](torch.mul, (ops[1], alpha), {}))
+                else:
+                    ops = (ops[0], ops[1] * alpha)
             elif name == 'div' and kwargs.get('rounding_mode') is None:
                 pass
             else:
